@@ -295,6 +295,32 @@ def product_family():
             g.meta['family'] = 'product'; out.append(g)
     return out
 
+# ---------------------------------------------------------------- zero-progress abandonment family
+def zero_progress_family():
+    """ordered-choice alternatives that can be abandoned at the very position where they began: the LL(1) guard lets the
+    alternative in, state is built without consuming a token (nullable rule nodes, open nodes, node markers, actions), and
+    then a predicate / assertion says no.  Restoring a snapshot taken at the same token position is the case a
+    position-keyed shortcut would skip."""
+    heads = {
+        'predalt': ('(?1 A | B)', ''), 'assert': ('!1 A', ''), 'nullrule_pred': ('w (?1 A | B)', 'w: C*;'),
+        'nullrule_assert': ('w !1 A', 'w: [C];'), 'inner_pred': ('y', 'y: (?1 A | B) C;'), 'inner_nullrule_pred': ('y', 'y: w (?1 A | B); w: C*;'),
+        'marker_pred': ('<1 (?1 A | B) [C 1>mk]', ''), 'action_pred': ('#1 (?1 A | B)', ''), 'two_nullrules': ('w v (?1 A | B)', 'w: C*; v: [H];'),
+        'elided_inner': ('z', 'z^: w (?1 A | B); w: C*;'),
+    }
+    ctxs = {'first': 'x: ({H} D / A E) G;', 'second': 'x: (A E / {H} D / A G) G;', 'loop': 'x: ({H} D / A E)* G;', 'elided': 'x^: ({H} D / A E) G;',
+            'deep': 'x: (u D / A E) G; u: {H};'}
+    out = []
+    for cn, ctx in ctxs.items():
+        for hn, (head, extra) in heads.items():
+            body = f's: x E; {ctx.replace("{H}", head)} {extra}'
+            txt = 'token ' + ' '.join(t for t in 'ABCDEGH' if re.search(r'\b' + t + r'\b', body)) + f'; start s; {body}'
+            try: g = parse_simple(txt, name=f'zp_{cn}_{hn}')
+            except SyntaxError: continue
+            g.meta['family'] = 'zero-progress'
+            if cn == 'loop': g.meta['bound_delta'] = -1          # the loop context multiplies paths: one token less than the tier's bound
+            out.append(g)
+    return out
+
 # ---------------------------------------------------------------- parts x constructs family
 def parts_family():
     """every construct family also as (or inside) a `part` entry point: parts run with their own end-of-input token, start
